@@ -409,6 +409,16 @@ def run(ctx, spec):
                     _pair(a, a.shade(*extra))
                     _pair(MeshPatt(q, cells[:size] + extra), a)
                     _triple(a, MeshPatt(q, cells[:size] + extra), MeshPatt(q, cells[: max(0, size - 1)] + extra))
+            # a small family of shadings that are prefixes of one another, prefixes with one later cell, and prefixes with an
+            # earlier cell missing: every ordered triple (transitivity) and sorted() from several starting orders
+            for _ in range(4):
+                size = rng.randint(1, len(cells) - 2)
+                fam = [MeshPatt(q, cells[:size]), MeshPatt(q, cells[: size + 1]), MeshPatt(q, cells[: size + 2]), MeshPatt(q, cells[: size - 1]),
+                       MeshPatt(q, cells[:size] + [rng.choice(cells[size + 1:])]), MeshPatt(q, cells[1:size] + cells[size: size + 1]),
+                       MeshPatt(q, cells[: size - 1] + [rng.choice(cells[size:])]), MeshPatt(q, [c for c in cells[: size + 2] if rng.random() < 0.8])]
+                for a, b, c in itertools.permutations(fam, 3):
+                    _triple(a, b, c)
+                chk_sorted(ctx, [encx(o) for o in fam], rng.randrange(10 ** 6))
             ctx.count("nested.shading_families")
     elif spec["kind"] == "triples":
         meshes = [o for o in U if is_meshtype(o)]
